@@ -389,6 +389,7 @@ Lemma other_dialogs_untouched es cid ft totag r k' :
 Proof.
   intros Hne. simpl. destruct (key_of_request cid ft totag) as [k|] eqn:Hk; [|reflexivity].
   destruct (entries_find k es) as [e|] eqn:He; [|reflexivity].
+  destruct (refused (e_st e) r); [reflexivity|].
   destruct (step (e_st e) r) as [st' d]. cbn [fst].
   apply entries_update_other; [reflexivity|]. intros ->. now apply Hne.
 Qed.
@@ -420,6 +421,7 @@ Lemma recv_uses_current_usages es cid ft totag r k us d :
 Proof.
   simpl. destruct (key_of_request cid ft totag) as [k0|] eqn:Hk; [|discriminate].
   destruct (entries_find k0 es) as [e|] eqn:He; [|discriminate].
+  destruct (refused (e_st e) r); [discriminate|].
   destruct (step (e_st e) r) as [st' dd]. cbn [snd].
   destruct dd; [discriminate|]. intros H; inversion H; subst.
   assert (Hke : e_key e = k0).
@@ -434,6 +436,7 @@ Lemma recv_keeps_usages es cid ft totag r k e :
 Proof.
   intros He. simpl. destruct (key_of_request cid ft totag) as [k0|] eqn:Hk; [|eauto].
   destruct (entries_find k0 es) as [e0|] eqn:He0; [|eauto].
+  destruct (refused (e_st e0) r); [eauto|].
   destruct (step (e_st e0) r) as [st' dd]. cbn [fst].
   destruct (dkey_eqb k0 k) eqn:E.
   - apply dkey_eqb_eq in E. subst k0. rewrite He in He0. inversion He0; subst e0.
